@@ -6,6 +6,7 @@ import (
 	"os"
 	"strconv"
 	"sync"
+	"time"
 
 	"github.com/parquet-go/parquet-go"
 	"github.com/parquet-go/parquet-go/compress"
@@ -80,6 +81,26 @@ func c20Dst(class int) []byte {
 	}
 }
 
+// c20Guard runs f like guard, but gives up after a deadline: a call that does not return is
+// reported as a hang and the process exits (the goroutine cannot be stopped); the driver restarts
+// the harness with the following scenarios.
+func c20Guard(tr *tracer, op string, f func()) (panicked bool, msg string) {
+	done := make(chan struct{})
+	go func() {
+		defer close(done)
+		panicked, msg = guard(f)
+	}()
+	select {
+	case <-done:
+		return panicked, msg
+	case <-time.After(15 * time.Second):
+		tr.emit("Ret", ev{"op": op, "hang": 1, "panic": 0, "err": 0, "same": 0, "encErr": 0, "decErr": 0, "bad": 0})
+		tr.flush()
+		os.Exit(3)
+		return false, ""
+	}
+}
+
 func c20Main(args []string) error {
 	seed, _ := strconv.ParseUint(argValue(args, "--seed", "1"), 10, 64)
 	startT, _ := strconv.Atoi(argValue(args, "--first-trace", "1"))
@@ -147,7 +168,7 @@ func c20Main(args []string) error {
 					tr.flush()
 					var enc, dec []byte
 					var e1, e2 error
-					pan, msg := guard(func() {
+					pan, msg := c20Guard(tr, "rt", func() {
 						enc, e1 = codec.Encode(c20Dst(d1), x)
 						if e1 == nil {
 							dec, e2 = codec.Decode(c20Dst(d2), enc)
@@ -195,7 +216,7 @@ func c20Main(args []string) error {
 					tr.flush()
 					var derr error
 					var out []byte
-					pan, msg := guard(func() { out, derr = codec.Decode(c20Dst(d), y) })
+					pan, msg := c20Guard(tr, "bad", func() { out, derr = codec.Decode(c20Dst(d), y) })
 					e := ev{"op": "bad", "err": b2i(derr != nil), "panic": b2i(pan), "outLen": len(out)}
 					if pan {
 						e["msg"] = msg
